@@ -70,6 +70,10 @@ type PolyCase struct {
 	F       [][]PolyTerm `json:"f"`
 	X       []Rat        `json:"x"`
 	PStates []string     `json:"pstates"`
+	MStates []string     `json:"mstates"`
+	X2      []Rat        `json:"x2"`
+	JacI    [][]int64    `json:"jaci"`
+	HessI   [][]int64    `json:"hessi"`
 	Val     []Rat        `json:"val"`
 	Jac     [][]Rat      `json:"jac"`
 	Hess    [][]Rat      `json:"hess"`
@@ -278,6 +282,51 @@ func (r *reporter) c06MatCase(c *MatCase) {
 					if da != nil && db != nil {
 						r.agreeM("cholesky", cfg.opts+bname+"/D", p, oa, ob, diagPart(da), diagPart(db), kappa)
 					}
+				}
+			}
+		}
+		if c.Sym && n >= 2 {
+			// INFORMATION ONLY (never a violation): a symmetric matrix handed over by its
+			// lower triangle alone (upper triangle zero).  Nothing in the doc comments says
+			// that the upper triangle is ignored, so such input is outside the admissible
+			// class of Cholesky/LDL; the counts go to evidence.
+			lower := make([][]int64, n)
+			for i := range lower {
+				lower[i] = make([]int64, n)
+				for j := 0; j <= i; j++ {
+					lower[i][j] = c.A[i][j]
+				}
+			}
+			for _, cfg := range []struct {
+				opts string
+				args []interface{}
+			}{
+				{"default", nil},
+				{"ldl", []interface{}{cholesky.LDL{Value: true}}},
+				{"ldl+forcepd", []interface{}{cholesky.LDL{Value: true}, cholesky.ForcePD{Value: true}}},
+			} {
+				run := func(ti tinfo) (outcome, [][]float64) {
+					var l Matrix
+					o := call(func() error {
+						var err error
+						l, _, err = cholesky.Run(mkMatrix(ti.t, lower), cfg.args...)
+						return err
+					})
+					if o.loud() || l == nil {
+						return o, nil
+					}
+					return o, matVals(lowerPart(l))
+				}
+				oa, va := run(p.a)
+				ob, vb := run(p.b)
+				same := oa.loud() == ob.loud()
+				if same && va != nil && vb != nil && (allFiniteM(va) || allFiniteM(vb)) {
+					same, _, _ = cmpM(va, vb, tolFn(16*p.a.u, kappa))
+				}
+				if same {
+					r.count("info:lower_triangle_only:" + cfg.opts + ":" + p.a.name + ":agree")
+				} else {
+					r.count("info:lower_triangle_only:" + cfg.opts + ":" + p.a.name + ":differ")
 				}
 			}
 		}
@@ -886,21 +935,73 @@ func polyPoint(xt ScalarType, c *PolyCase, state string) MagicVector {
 	panic("unknown point state " + state)
 }
 
-func (r *reporter) c06Poly(c *PolyCase) {
-	nv := c.N
-	jac := ratM(c.Jac)
-	hess := ratM(c.Hess)
-	scale := 1.0
-	for _, row := range append(append([][]float64{}, jac...), hess...) {
-		for _, x := range row {
-			scale = math.Max(scale, math.Abs(x))
+// element types the Jacobian/Hessian helpers exist for; the integer result
+// matrices hold the derivatives truncated towards zero (tables jaci / hessi)
+type htype struct {
+	tinfo
+	integer bool
+	max     float64 // largest representable magnitude that is relevant here
+}
+
+var helperTypes = []htype{
+	{allTypes[0], false, 0}, {allTypes[1], false, 0}, {allTypes[2], false, 0}, {allTypes[3], false, 0},
+	{tinfo{"int", IntType, 0, 0, false}, true, 1e15},
+	{tinfo{"i64", Int64Type, 0, 0, false}, true, 1e15},
+	{tinfo{"i32", Int32Type, 0, 0, false}, true, 2147483647},
+	{tinfo{"i16", Int16Type, 0, 0, false}, true, 32767},
+	{tinfo{"i8", Int8Type, 0, 0, false}, true, 127},
+}
+
+func maxAbs(a [][]float64) float64 {
+	m := 0.0
+	for _, r := range a {
+		for _, x := range r {
+			m = math.Max(m, math.Abs(x))
 		}
 	}
-	states := c.PStates
-	if len(states) == 0 {
-		states = []string{"fresh"}
+	return m
+}
+
+// result matrix in the state named by the specification (MatrixStates)
+func resultMatrix(t ScalarType, rows, cols int, state string, fill func(m Matrix)) Matrix {
+	m := NullDenseMatrix(t, rows, cols)
+	switch state {
+	case "fresh":
+	case "junk":
+		for i := 0; i < rows; i++ {
+			for j := 0; j < cols; j++ {
+				m.At(i, j).SetFloat64(float64(3 + 2*i + 5*j)) // non-zero for every type
+			}
+		}
+	case "reused":
+		fill(m)
+	default:
+		panic("unknown matrix state " + state)
 	}
-	for _, ti := range allTypes {
+	return m
+}
+
+func (r *reporter) c06Poly(c *PolyCase) {
+	nv := c.N
+	pstates := c.PStates
+	if len(pstates) == 0 {
+		pstates = []string{"fresh"}
+	}
+	mstates := c.MStates
+	if len(mstates) == 0 {
+		mstates = []string{"fresh"}
+	}
+	for _, ht := range helperTypes {
+		ti := ht.tinfo
+		jac, hess := ratM(c.Jac), ratM(c.Hess)
+		if ht.integer {
+			jac, hess = intM(c.JacI), intM(c.HessI)
+			if maxAbs(jac) > ht.max || maxAbs(hess) > ht.max {
+				r.count("helper_skipped_overflow:" + ti.name)
+				continue
+			}
+		}
+		scale := math.Max(1, math.Max(maxAbs(jac), maxAbs(hess)))
 		xt := Real64Type
 		if ti.t == Float32Type || ti.t == Real32Type {
 			xt = Real32Type
@@ -913,12 +1014,25 @@ func (r *reporter) c06Poly(c *PolyCase) {
 			return out
 		}
 		g := func(y ConstVector) ConstScalar { return polyEval(c.F[0], y, xt) }
-		for _, state := range states {
+		// the other evaluation point, for result matrices filled by a previous call
+		other := func() MagicVector {
+			x := NullDenseVector(xt, nv)
+			for i := 0; i < nv; i++ {
+				v := 1.5
+				if len(c.X2) == nv {
+					v = c.X2[i].F()
+				}
+				x.At(i).SetFloat64(v)
+			}
+			return x.(MagicVector)
+		}
+		for _, state := range pstates {
+			if ht.integer && state != "fresh" {
+				continue
+			}
 			opts := "poly/" + state
-			r.note = vh.M{"point_state": state}
 			var x MagicVector
 			if msg := vh.Try(func() { x = polyPoint(xt, c, state) }); msg != "" {
-				// the library refused to build the point: nothing to hand to the helpers
 				r.count("point_state_unbuildable:" + state)
 				continue
 			}
@@ -933,18 +1047,28 @@ func (r *reporter) c06Poly(c *PolyCase) {
 				continue
 			}
 			r.count("point_state:" + state)
-			// what the caller's point carries must survive the helper
 			before := derivState(x)
-			{
-				m := NullDenseMatrix(ti.t, len(c.F), nv)
-				o := call(func() error { m.Jacobian(f, x); return nil })
-				r.judgeM("Jacobian", ti.name, opts, nil, o, m, expectInv{jac, scale, "none"}, ti.tol, len(c.F))
+			for _, ms := range mstates {
+				r.note = vh.M{"point_state": state, "result_matrix": ms}
+				r.count("result_matrix:" + ti.name + ":" + ms)
+				extra := vh.M{"result": ms}
+				exact := expectInv{jac, scale, "none"}
+				tol := ti.tol
+				if ht.integer {
+					tol = 0 // integers: exact
+				}
+				{
+					m := resultMatrix(ti.t, len(c.F), nv, ms, func(m Matrix) { m.Jacobian(f, other()) })
+					o := call(func() error { m.Jacobian(f, x); return nil })
+					r.judgeM("Jacobian", ti.name, opts, extra, o, m, exact, tol, len(c.F))
+				}
+				{
+					m := resultMatrix(ti.t, nv, nv, ms, func(m Matrix) { m.Hessian(g, other()) })
+					o := call(func() error { m.Hessian(g, x); return nil })
+					r.judgeM("Hessian", ti.name, opts, extra, o, m, expectInv{hess, scale, "none"}, tol, nv)
+				}
 			}
-			{
-				m := NullDenseMatrix(ti.t, nv, nv)
-				o := call(func() error { m.Hessian(g, x); return nil })
-				r.judgeM("Hessian", ti.name, opts, nil, o, m, expectInv{hess, scale, "none"}, ti.tol, nv)
-			}
+			// what the caller's point carries must survive the helper
 			r.nchecks++
 			if after := derivState(x); after != before {
 				r.mismatch("Jacobian", ti.name, opts, "argument_changed", nil, vh.M{"before": before, "after": after})
